@@ -16,8 +16,10 @@ package main
 
 import (
 	"context"
+	"encoding/json"
 	"errors"
 	"fmt"
+	"os"
 	"runtime"
 	"sort"
 	"strings"
@@ -1002,6 +1004,59 @@ func directedResume(who string, workers int) qcase {
 	return c
 }
 
+// directedQueuedEnd builds the family "every incoming worker of node 1 is held at its outgoing-block
+// gate, request B (from node 0) and request C (from node 2) are seen Queued/pending behind them, then B
+// is ended while queued -> observe -> release -> finish".  B must leave the table (or stay Queued <=>
+// pending) at every observation.
+//
+//	how: "respCancel" (responder's own Cancel) | "reqCancelCtx" | "reqCancelApi" (requestor cancels)
+//	     | "unpauseThenCancel" (B paused by its request hook, unpaused -> Queued, cancelled before it is popped)
+//	     | "pauseThenCancel"   (responder Pause on the queued B -- a signal only -- then Cancel)
+func directedQueuedEnd(how string, workers int) qcase {
+	var c qcase
+	for n := 0; n < nNodes; n++ {
+		c.Workers[n] = [2]int{4, 1}
+	}
+	c.Workers[1][1] = workers
+	add := func(kind string, k, n int) { c.Ops = append(c.Ops, op{Kind: kind, K: k, N: n}) }
+	// the held requests, one per worker
+	for i := 0; i < workers; i++ {
+		c.Reqs = append(c.Reqs, reqSpec{From: 0, To: 1, Len: 3, RespHook: "ok", RespGate: 0, ReqGate: -1, SentGate: -1})
+		add("start", i+1, 0)
+		add("awaitRespState", i+1, 2)
+	}
+	b, cc := workers+1, workers+2
+	bq := reqSpec{From: 0, To: 1, Len: 3, RespHook: "ok", RespGate: -1, ReqGate: -1, SentGate: -1}
+	if how == "unpauseThenCancel" {
+		bq.RespHook = "pause"
+	}
+	c.Reqs = append(c.Reqs, bq, reqSpec{From: 2, To: 1, Len: 2, RespHook: "ok", RespGate: -1, ReqGate: -1, SentGate: -1})
+	add("start", b, 0)
+	if how == "unpauseThenCancel" {
+		add("awaitRespState", b, 3)
+		add("respUnpause", b, 0)
+	}
+	add("awaitRespState", b, 1)
+	add("start", cc, 0)
+	add("awaitRespState", cc, 1)
+	switch how {
+	case "respCancel", "unpauseThenCancel":
+		add("respCancel", b, 0)
+	case "pauseThenCancel":
+		add("respPause", b, 0)
+		add("respCancel", b, 0)
+	case "reqCancelCtx":
+		add("reqCancelCtx", b, 0)
+	case "reqCancelApi":
+		add("reqCancelApi", b, 0)
+	}
+	add("respCancel", cc, 0) // the other peer's queued response too
+	for i := 0; i < workers; i++ {
+		add("respAllow", i+1, -1)
+	}
+	return c
+}
+
 func tagsOf(c qcase) []string {
 	seen := map[string]bool{}
 	var t []string
@@ -1106,6 +1161,20 @@ func run(c *drv.Ctx) error {
 	for _, who := range []string{"reqApi", "reqHook", "respApi", "respHook"} {
 		if err := doCase(directedResume(who, 2), "directed"); err != nil {
 			return err
+		}
+	}
+	// directed family (both tiers): a queued response ended behind held workers, 2 workers
+	// (the 1-worker variants are corpus cases)
+	for _, how := range []string{"respCancel", "unpauseThenCancel", "pauseThenCancel", "reqCancelCtx", "reqCancelApi"} {
+		if err := doCase(directedQueuedEnd(how, 2), "directed"); err != nil {
+			return err
+		}
+	}
+	if os.Getenv("D_QUIESCE_DUMP") != "" {
+		// write the 1-worker variants of the directed families as corpus files
+		for _, how := range []string{"respCancel", "unpauseThenCancel", "pauseThenCancel", "reqCancelCtx", "reqCancelApi"} {
+			b, _ := json.Marshal(directedQueuedEnd(how, 1))
+			_ = os.WriteFile(os.Getenv("D_QUIESCE_DUMP")+"/queued_end_"+how+".json", b, 0o644)
 		}
 	}
 	n := c.Count(48, 600)
